@@ -44,7 +44,7 @@ def excerpt(lines, lineno, before=14, after=4):
 
 
 def check_text(part, text, facts_by_invoke, annexed, label, hist_strs,
-               only=None, replay=None):
+               only=None, replay=None, min_d=1):
     """Parse + execute every invoke subroutine of `text` (or only `only`).
     Returns number of invokes analysed."""
     from vf import c22_parse, c22_exec
@@ -66,7 +66,8 @@ def check_text(part, text, facts_by_invoke, annexed, label, hist_strs,
         for k, v in parsed["stats"].items():
             part.count(k, v)
         counters = {}
-        faults, info = c22_exec.analyse(parsed["events"], annexed, counters)
+        faults, info = c22_exec.analyse(parsed["events"], annexed, counters,
+                                        min_d)
         for k, v in counters.items():
             part.count(k, v)
         if not info["valid_D"]:
@@ -137,6 +138,20 @@ def run_case(part, info, annexed, label, rnd, nsteps, replay_base,
                 drv.apply_step(sched, st)
             except PSycloneError:
                 part.count("refused:" + st["t"])
+                # A refusal may leave the schedule partly changed (that is
+                # property C26, not this one): rebuild it from the accepted
+                # steps only, so that the code judged here is the result of
+                # an ACCEPTED history.
+                try:
+                    psy = drv.new_psy(info)
+                    invs = psy.invokes.invoke_list
+                    target = invs[idx]
+                    sched = target.schedule
+                    for old in hist:
+                        drv.apply_step(sched, old)
+                except Exception:      # pylint: disable=broad-except
+                    part.count("rebuild_after_refusal_failed")
+                    return
                 continue
             except (IndexError, KeyError, AttributeError, ValueError,
                     TypeError) as err:
@@ -172,9 +187,11 @@ def run_case(part, info, annexed, label, rnd, nsteps, replay_base,
         if target is None or inv is target:
             facts[inv.name] = drv.kernel_facts(inv.schedule)
     hs = [drv.step_str(s) for s in hist]
+    min_d = max([1] + [st["depth"] for st in hist
+                       if st["t"] == "rc" and st["depth"]])
     check_text(part, text, facts, annexed, label, hs,
                only=target.name if target is not None else None,
-               replay=replay_base)
+               replay=replay_base, min_d=min_d)
     part.count("cases_with_history" if hist else "cases_without_history")
 
 
@@ -247,6 +264,41 @@ def batch(arg):
     return part
 
 
+def replay(ctx, witness):
+    """Re-run exactly the case of a witness (same source, annexed setting,
+    invoke and transformation history)."""
+    from vf import c22_drive as drv
+    rep = witness["replay"]
+    drv.set_annexed(rep["annexed"])
+    part = Part()
+    tmp = tempfile.mkdtemp(prefix="vf_c22_")
+    try:
+        if "file" in rep:
+            label, path, kp = rep["file"], os.path.join(drv.ALG_DIR,
+                                                        rep["file"]), None
+        else:
+            from vf import c22_gen
+            kdir = os.path.join(tmp, "kernels")
+            c22_gen.write_kernels(kdir)
+            label = "gen_%012x" % rep["gen_seed"]
+            path = os.path.join(tmp, label + ".f90")
+            with open(path, "w") as fh:
+                fh.write(c22_gen.algorithm(random.Random(rep["gen_seed"]),
+                                           label, kdir))
+            kp = [kdir]
+        info = drv.create_psy(path, kp)
+        fixed = None
+        if rep.get("steps"):
+            fixed = {"invoke_index": rep["invoke_index"],
+                     "steps": rep["steps"]}
+        run_case(part, info, rep["annexed"], label, random.Random(0), 0,
+                 rep, fixed_hist=fixed)
+    finally:
+        shutil.rmtree(tmp, ignore_errors=True)
+    ctx.merge(part.to_json())
+    ctx.rule = "replay of one witness"
+
+
 def main(ctx):
     files = alg_files()
     rnd = ctx.rng("files")
@@ -264,8 +316,8 @@ def main(ctx):
     nrest = 8 if ctx.quick else len(rest)
     chosen = must + rest[:nrest]
     selftest = bool(os.environ.get("VF_C22_SELFTEST"))
-    ngen = 3 if ctx.quick else 40
-    nh = 4 if ctx.quick else 12
+    ngen = 3 if ctx.quick else 24
+    nh = 4 if ctx.quick else 10
     nchunks = 16 if ctx.quick else 32
     jobs = []
     for annexed in (False, True):
@@ -287,9 +339,21 @@ def main(ctx):
         "every field for two mesh halo depths and stencil extents 1,2; "
         "non-trivial = at least one loop executed; distinct by (source, "
         "invoke, annexed, history)" % (len(chosen), ngen))
-    for res in ctx.pmap("vf.checks.c22", "batch", jobs, timeout=3000):
+    for res in ctx.pmap("vf.checks.c22", "batch", jobs,
+                        timeout=1500 if ctx.quick else 7000):
         if res:
             ctx.merge(res)
+    if not ctx.quick and not selftest:
+        # validate the text executor against real runs on the stub
+        # infrastructure (rank 0 of 2, logging overlay)
+        try:
+            from vf import c22_impl
+            c22_impl.run(ctx, 10)
+        except Exception as err:      # pylint: disable=broad-except
+            ctx.count("impl_validation_crashed")
+            ctx.extra["impl_validation"] = "crashed: %r" % (err,)
+        ctx.extra["traces_validated_against_impl"] = ctx.counters.get(
+            "traces_validated_against_impl", 0)
     c = ctx.counters
     if selftest:
         ctx.extra["selftest"] = ("VF_C22_SELFTEST: every generated PSy layer "
